@@ -56,6 +56,10 @@ func init() {
 			`^\(\*tds\.PacketHeader\)\.(ReadFrom|Write)$`, `^\(\*tds\.Packet\)\.ReadFrom$`,
 		),
 		Exclude: []string{`tds\.(Conn)\)`},
+		After: func(P *Prog, rep *Report, tier string) {
+			runIsland(rep, P.repoDir, "parser-mutations", "tds", "parser_replay_test.go", "TestReplayParsers",
+				"13 sample encodings (DONE, RETURNSTATUS, MSG, EED, ERROR, ENVCHANGE, LOGINACK, LANGUAGE, DYNAMIC narrow/wide, PARAMFMT+PARAMS narrow/wide, CAPABILITY) produced by the real WriteTo; every proper prefix and every single-byte mutation (values 0, 1 everywhere; 0x7f, 0x80, 0xff in the first four bytes) parsed by the real LookupPackage/LastPkg/ReadFrom; panics, wrong truncation errors and allocations above 1 MiB are failures", 180)
+		},
 		Claim: func(o *Obligation) bool {
 			// everything except the clauses that belong to C07's claim; the structural
 			// obligations (type invariants, typestate, frames, loop invariants) carry
